@@ -169,3 +169,72 @@ def rule_erase_only(db, chk, cfg, rule="ERASE"):
         for nm, x in muts[:1]:
             chk.violation(rule, f.qual, nm, "StripDuplicates modifies its path by %s; it may only erase elements" % nm, where(x), cfg=cfg)
     return n
+
+
+def rule_pinned_ends(db, chk, cfg, rule="END.pinned"):
+    """SimplifyPath (open paths): the distances of the two end points are pinned to MAX_DBL and every later write
+    distSqr[V] = ... is guarded by `isClosedPath || (V != 0 && V != high)` on the *same* V."""
+    from ..astq import if_parts
+    from ..evalx import Interp, Unsupported
+    n = 0
+    for f in db.find("SimplifyPath"):
+        if "vector<vector" in dqt(f.params[0]) or "Paths<" in f.sig.split("(")[0]:
+            continue
+        # the pins
+        txt = canon(f.body)
+        pins = "(distSqr[0] = MAX_DBL)" in txt and "(distSqr[high] = MAX_DBL)" in txt
+        n += 1
+        chk.instance(rule, {"function": f.qual, "sig": f.sig[:50], "obligation": "open paths pin distSqr[0] and distSqr[high] to MAX_DBL", "cfg": cfg}, ok=pins)
+        if not pins:
+            chk.violation(rule, f.qual, "pins", "SimplifyPath no longer pins the end points of an open path (distSqr[0] = distSqr[high] = MAX_DBL)", f.where, cfg=cfg)
+        # guarded re-computations inside the main loop
+        loops = [x for x in walk(f.body) if x.get("kind") == "ForStmt" and not [c for c in kids(x)[:4] if c and c.get("kind")]]
+        if len(loops) != 1:
+            raise AnalysisBroken("main loop `for (;;)` of SimplifyPath not found")
+        par = {}
+        for x in walk(loops[0]):
+            for c in kids(x):
+                if isinstance(c, dict):
+                    par[id(c)] = x
+        for x in walk(loops[0]):
+            l = None
+            if x.get("kind") == "BinaryOperator" and x.get("opcode") == "=":
+                l = kids(x)[0]
+            elif x.get("kind") == "CXXOperatorCallExpr" and len(kids(x)) == 3 and _u(kids(x)[0]).get("referencedDecl", {}).get("name") == "operator=":
+                l = kids(x)[1]
+            if l is None:
+                continue
+            m = re.match(r'^distSqr\[(\w+)\]$', canon(l))
+            if not m:
+                continue
+            v = m.group(1)
+            # enclosing if
+            p = par.get(id(x))
+            guard = None
+            while p is not None:
+                if p.get("kind") == "IfStmt":
+                    guard = if_parts(p)[0]
+                    break
+                if p.get("kind") in ("ForStmt", "WhileStmt", "DoStmt"):
+                    break
+                p = par.get(id(p))
+            n += 1
+            ok = False
+            why = "the write is not guarded"
+            if guard is not None:
+                names = {y.get("referencedDecl", {}).get("name") for y in walk(guard) if y.get("kind") == "DeclRefExpr"}
+                ok = True
+                for val, label in ((0, "0"), (9, "high")):
+                    env = {nm: 5 for nm in names if nm}
+                    env.update({"isClosedPath": False, "high": 9, v: val})
+                    try:
+                        if Interp(db, env).ev(guard):
+                            ok = False
+                            why = "guard %s admits %s == %s on an open path" % (canon(guard)[:60], v, label)
+                    except Unsupported as e:
+                        raise AnalysisBroken("cannot interpret SimplifyPath's guard %s: %s" % (canon(guard)[:60], e))
+            chk.instance(rule, {"function": f.qual, "write": canon(x)[:50], "guard": canon(guard)[:70] if guard else None, "cfg": cfg}, ok=ok)
+            if not ok:
+                chk.violation(rule, f.qual, "distSqr[%s]" % v, "the pinned distance of an end point can be overwritten: %s; the end point of an "
+                              "open path can then be removed" % why, where(x), cfg=cfg)
+    return n
